@@ -28,6 +28,9 @@ func init() {
 type orderExplorer struct {
 	c   *ShardCtx
 	srv *hook.Server
+	// fresh: run every execution in a process of its own (bin) instead of the long-lived server
+	fresh bool
+	bin   string
 }
 
 func outcomeKey(r *hook.Resp) string {
@@ -72,7 +75,21 @@ func (x *orderExplorer) explore(base hook.Req, bound int) (map[string][]int, int
 	rec = func(prefix []int, from int, left int) {
 		req := base
 		req.Order = prefix
-		r, err := x.srv.Call(&req)
+		var r *hook.Resp
+		var err error
+		if x.fresh {
+			// one process per execution: what an earlier build left behind in the process (package-level
+			// sets, caches) cannot make all orders look alike
+			fs, err2 := hook.Start(x.bin)
+			if err2 != nil {
+				panic(&core.HarnessError{Msg: err2.Error()})
+			}
+			r, err = fs.Call(&req)
+			fs.Close()
+			x.c.Res.Counters["executions_in_a_fresh_process"]++
+		} else {
+			r, err = x.srv.Call(&req)
+		}
 		if err != nil {
 			panic(&core.HarnessError{Msg: err.Error()})
 		}
@@ -120,7 +137,8 @@ func runC19(c *ShardCtx) {
 		panic(&core.HarnessError{Msg: err.Error()})
 	}
 	defer srv.Close()
-	x := &orderExplorer{c: c, srv: srv}
+	x := &orderExplorer{c: c, srv: srv, bin: filepath.Join(core.Root(), "build", "bin", "pigeon-verif-order")}
+	bindEvery := 61
 	realBin := filepath.Join(core.Root(), "build", "bin", "pigeon")
 	idx := 0
 	one := func(g *peg.Grammar, flagSets []hook.Req) {
@@ -194,7 +212,7 @@ func runC19(c *ShardCtx) {
 				}
 				c.Res.Conformance += 1
 				c.Report(Violation{Desc: desc, Grammar: text, Gen: flagsDesc(&fl), Diffs: ks}, "")
-			} else if idx%61 == 3 {
+			} else if idx%bindEvery == 3%bindEvery {
 				// binding: the sorted-order emission equals what the real binary prints
 				want := b0
 				got := runReal(realBin, text, &fl)
@@ -225,7 +243,25 @@ func runC19(c *ShardCtx) {
 					case h != h2:
 						c.Report(Violation{Desc: "two builds of the same grammar in one process print different files", Grammar: text, Gen: flagsDesc(&fl)}, "")
 					case got != fmt.Sprintf("%x", h[:8]):
-						panic(&core.HarnessError{Msg: "instrumented build (sorted order) and real binary print different parsers for\n" + text})
+						// the long-lived server process differs from the real binary: does a FRESH process of
+						// the instrumented build agree with the binary? Then the difference is what the
+						// server built before (history), which the property forbids; otherwise the harness
+						// is at fault
+						fs, err := hook.Start(x.bin)
+						if err != nil {
+							panic(&core.HarnessError{Msg: err.Error()})
+						}
+						fr, err := fs.Call(&m)
+						fs.Close()
+						if err != nil {
+							panic(&core.HarnessError{Msg: err.Error()})
+						}
+						fh := sha256.Sum256(fr.Stdout)
+						if got == fmt.Sprintf("%x", fh[:8]) {
+							c.Report(Violation{Desc: "repeated builds inside one process: a process that has built other grammars before prints another file for this grammar than a fresh process (and than the real binary)", Grammar: text, Gen: flagsDesc(&fl)}, "")
+						} else {
+							panic(&core.HarnessError{Msg: "instrumented build (sorted order) and real binary print different parsers for\n" + text})
+						}
 					}
 				}
 			}
@@ -438,18 +474,20 @@ func runC19(c *ShardCtx) {
 					if c.Expired("first-set family") {
 						return
 					}
-					var x *peg.Expr
+					var xe *peg.Expr
 					if shape == 0 {
-						x = peg.Recover(t(), peg.Ref("R"), "l")
+						xe = peg.Recover(t(), peg.Ref("R"), "l")
 					} else {
-						x = peg.Recover(peg.Seq(t(), lit("q")), peg.Seq(peg.Opt(lit("a")), peg.Ref("R")), "l")
+						xe = peg.Recover(peg.Seq(t(), lit("q")), peg.Seq(peg.Opt(lit("a")), peg.Ref("R")), "l")
 					}
 					g := &peg.Grammar{Rules: []*peg.Rule{
 						{Name: "S", Expr: peg.Seq(peg.Star(peg.Seq(peg.Ref("W"), peg.Ref("X"))), peg.Not(peg.Any()))},
-						{Name: "X", Expr: x}, {Name: "W", Expr: peg.Plus(peg.Cls(false, false, "a-z"))}, {Name: "R", Expr: peg.Ref("K")}, {Name: "K", Expr: k()}}}
+						{Name: "X", Expr: xe}, {Name: "W", Expr: peg.Plus(peg.Cls(false, false, "a-z"))}, {Name: "R", Expr: peg.Ref("K")}, {Name: "K", Expr: k()}}}
 					peg.Renumber(g, 1)
 					peg.AssignArgs(g)
+					x.fresh, bindEvery = true, 1
 					one(g, append([]hook.Req{{}}, lrSets[:1]...))
+					x.fresh, bindEvery = false, 61
 				}
 			}
 		}
